@@ -19,7 +19,7 @@ RULE = ("(i) every byte string of length <=3 (thorough <=4) over a 12-symbol JSO
         "alphabet offered as the document; (iii) every single node fault (17 junk values, deletion, duplication under a sibling key) of 3 "
         "valid base documents (thorough: pairs on one base) (30 junk values incl. enums of floats/booleans/lists, inf/nan defaults, references urlparse refuses; 4 bases) and cyclic $ref shapes; (iv) every document of the other checks' spaces "
         "(generate only); seam: the real typer CLI via CliRunner for (i)-(iii); oracle: no escaping exception, termination, exit "
-        "status <=> error-level diagnostics (and --fail-on-warning), no output when the document is rejected; (v) YAML-native scalars (dates, timestamps, binary, sets, inf/nan) at 12 value slots, version strings of every JSON shape, YAML alias graphs (cyclic / re-used / deep), the same YAML-native values (plus a self-containing node and non-UTF-8 bytes) inside schemas / parameters / bodies / responses that are refused and printed back in the diagnostic")
+        "status <=> error-level diagnostics (and --fail-on-warning), no output when the document is rejected; (v) YAML-native scalars (dates, timestamps, binary, sets, inf/nan) at 12 value slots, version strings of every JSON shape, YAML alias graphs (cyclic / re-used / deep), scalar tags whose constructor fails (!!int / !!float / !!bool / bad timestamps), schemas nested 10..600 levels deep through items / properties / allOf / oneOf / additionalProperties, date and number defaults no Python value can hold, the same YAML-native values (plus a self-containing node and non-UTF-8 bytes) inside schemas / parameters / bodies / responses that are refused and printed back in the diagnostic")
 FLOOR = 0.3
 ASSUMPTIONS = ["typer's CliRunner reproduces the command's behaviour", "a per-case watchdog (30 s vs ~15 ms typical) detects hangs; a timeout is re-run alone with a tenfold limit by the confirmation step"]
 
@@ -29,6 +29,8 @@ YAML_SPECIALS = [
     "? [1, 2]\n: v\n", "1: a\n2.5: b\ntrue: c\nnull: d\n", "a: &a [*a]\n" if False else "a: &a\n  - 1\nb: *a\n",
     "a: &a [x,x,x,x,x,x,x,x,x]\nb: &b [*a,*a,*a,*a,*a,*a,*a,*a,*a]\nc: &c [*b,*b,*b,*b,*b,*b,*b,*b,*b]\nd: &d [*c,*c,*c,*c,*c,*c,*c,*c,*c]\ne: &e [*d,*d,*d,*d,*d,*d,*d,*d,*d]\nf: [*e,*e,*e,*e,*e,*e,*e,*e,*e]\n",
     "openapi: 3.1.0\ninfo: {title: t, version: '1'}\npaths: &p\n  /x: {get: {responses: {'200': {description: d}}}}\nextra: *p\n",
+    "a: 2001-13-01\n", 'a: !!int "zz"\n', 'a: !!float "zz"\n', 'a: !!bool "zz"\n', 'a: !!timestamp "zz"\n', 'a: !!null "zz"\n', "a: 2001-02-30T25:61:61Z\n",
+    "[" * 200 + "\n", "[" * 5000 + "\n", "{a: " * 3000 + "\n",
     "--- a\n--- b\n", "%YAML 1.1\n---\non: yes\n", "\t\tx", "- - - - - - - - - - x\n", "!!python/object/apply:os.system ['true']\n", "a: !custom v\n", "openapi: 3.1.0\ninfo: !!map {title: t, version: !!str 1}\npaths: !!map {}\n",
 ]
 ATOMS = [None, True, 0, 1.5, "", "3.0.0", "3.1.0", [], {}]
@@ -39,7 +41,9 @@ JUNK = [None, True, 0, -1, 1.5, "", "x", [], [None], {}, {"$ref": "#/components/
         # enums of unsupported member types (alone, and inside an object), numeric defaults that are not numbers, references that are not URLs
         {"enum": [1.5, 2.5]}, {"enum": [True, False]}, {"enum": [[1], [2]]}, {"type": "object", "properties": {"e": {"enum": [1.5]}, "f": {"type": "array", "items": {"enum": [{"a": 1}]}}}},
         {"type": "integer", "default": "inf"}, {"type": "number", "default": "nan"}, {"type": "integer", "default": 1e400}, {"$ref": "//["}, {"$ref": "http://[::1"},
-        {"type": "string", "format": "date", "default": "2020-13-45"}, {"type": "string", "format": "uuid", "default": 5}, {"const": [1]}, {"type": ["integer", "string"], "default": []}]
+        {"type": "string", "format": "date", "default": "2020-13-45"}, {"type": "string", "format": "uuid", "default": 5}, {"const": [1]}, {"type": ["integer", "string"], "default": []},
+        {"type": "string", "format": "date-time", "default": "9999-12-31T24:00:00"}, {"type": "string", "format": "date", "default": "9999-12-31T24:00:00"},
+        {"type": "number", "default": 10 ** 400}, {"type": "number", "default": "inf"}, {"type": "number", "default": "-1e999"}, {"type": "integer", "default": 10 ** 400}]
 
 
 def _bases():
@@ -204,7 +208,8 @@ def _foreign_docs(tier):
 NATIVE = {"date": "2020-01-02", "timestamp": "2020-01-02T03:04:05Z", "binary": "!!binary aGVsbG8=", "set": "!!set {a, b}", "inf": ".inf", "nan": ".nan", "neg-inf": "-.inf",
           "octal": "0o17", "sexagesimal": "1:30", "null-tilde": "~", "bool-yes": "yes", "merge": "{<<: {a: 1}, b: 2}",
           # values a JSON encoder cannot write: a node that contains itself, bytes that are not UTF-8
-          "self-alias": "&loop [*loop]", "binary-non-utf8": "!!binary /w=="}
+          "self-alias": "&loop [*loop]", "binary-non-utf8": "!!binary /w==",
+          "bad-timestamp": "2001-13-01", "bad-int-tag": '!!int "zz"', "bad-float-tag": '!!float "zz"', "bad-bool-tag": '!!bool "zz"'}
 NATIVE_SLOTS = {
     # slot name: YAML document template; @V@ is replaced by the native scalar, @O@ by an object holding it, @A@ by an array holding it
     "property-example-scalar": "components: {schemas: {M: {type: object, properties: {p: {type: string, example: @V@}}}}}",
@@ -239,6 +244,42 @@ YAML_ALIAS_DOCS = {
     "deep-nesting": "components:\n  schemas:\n    D: " + "{allOf: [" * 60 + "{type: object}" + "]}" * 60 + "\n",
     "billion-laughs-small": "x-a: &a [x, x]\nx-b: &b [*a, *a]\nx-c: &c [*b, *b]\nx-d: &d [*c, *c]\nx-e: [*d, *d]\n",
 }
+
+
+NEST_KINDS = ("items", "props", "allof", "oneof", "addl", "items-of-objects")
+NEST_DEPTHS = (10, 20, 50, 100, 200, 300, 600)
+
+
+def _nested(kind, n):
+    s = {"type": "string"}
+    for _ in range(n):
+        if kind == "items":
+            s = {"type": "array", "items": s}
+        elif kind == "props":
+            s = {"type": "object", "properties": {"p": s}}
+        elif kind == "allof":
+            s = {"allOf": [s]}
+        elif kind == "oneof":
+            s = {"oneOf": [s, {"type": "integer"}]}
+        elif kind == "addl":
+            s = {"type": "object", "additionalProperties": s}
+        else:
+            s = {"type": "array", "items": {"type": "object", "properties": {"q": s}}}
+    return {"openapi": "3.1.0", "info": {"title": "t", "version": "1"}, "paths": {}, "components": {"schemas": {"D": {"type": "object", "properties": {"q": s}}}}}
+
+
+def _nesting_texts():
+    """(name, JSON text) - written without json.dumps, which has a recursion limit of its own"""
+    for kind in NEST_KINDS:
+        for n in NEST_DEPTHS:
+            if n <= 200:
+                yield f"{kind}/{n}", json.dumps(_nested(kind, n))
+            else:
+                opener = {"items": '{"type":"array","items":', "props": '{"type":"object","properties":{"p":', "allof": '{"allOf":[', "oneof": '{"oneOf":[',
+                          "addl": '{"type":"object","additionalProperties":', "items-of-objects": '{"type":"array","items":{"type":"object","properties":{"q":'}[kind]
+                closer = {"items": "}", "props": "}}", "allof": "]}", "oneof": ',{"type":"integer"}]}', "addl": "}", "items-of-objects": "}}}"}[kind]
+                inner = opener * n + '{"type":"string"}' + closer * n
+                yield f"{kind}/{n}", '{"openapi":"3.1.0","info":{"title":"t","version":"1"},"paths":{},"components":{"schemas":{"D":{"type":"object","properties":{"q":' + inner + "}}}}}"
 
 
 def _yaml_native_docs():
@@ -296,6 +337,8 @@ def cases(tier):
     yield {"labels": ["cyclic-refs"], "payload": {"mode": "docs", "docs": [d for _n, d in cyc], "names": [n for n, _d in cyc], "fail_on_warning": False, "what": "cycle"}}
     yield {"labels": ["cyclic-refs", "fail-on-warning"], "payload": {"mode": "docs", "docs": [d for _n, d in cyc], "names": [n for n, _d in cyc], "fail_on_warning": True, "what": "cycle"}}
     # YAML documents whose example / default / enum / const values are YAML-native scalars (dates, timestamps, binary, sets, .inf, .nan)
+    for kind in NEST_KINDS:
+        yield {"labels": [f"nesting-depth={kind}"], "payload": {"mode": "nesting", "kind": kind}}
     yield {"labels": ["yaml-native-values"], "payload": {"mode": "yamlnative", "fail_on_warning": False}}
     yield {"labels": ["yaml-native-values", "fail-on-warning"], "payload": {"mode": "yamlnative", "fail_on_warning": True}}
     # CLI option faults
@@ -407,6 +450,17 @@ def run_case(p):
             for x in v:
                 if name:
                     x["key"] += f"/{name}"
+            viol += v
+            outcomes[o] += 1
+            steps += 1
+    elif mode == "nesting":
+        for name, text in _nesting_texts():
+            if not name.startswith(p["kind"] + "/"):
+                continue
+            src = _write("c06in.json", text.encode("utf-8"))
+            v, o = run_cli(src, False, key=f"nesting {name}")
+            for x in v:
+                x["key"] += f"/nesting:{p['kind']}"
             viol += v
             outcomes[o] += 1
             steps += 1
